@@ -21,6 +21,10 @@ STRENGTHENED = {
     "C05-4": "C05: 'session' queries (one re-used iterator, several Seek/Next) and a bulk-load class giving SSTables of >= 3 blocks",
     "C06-3": "C06: resource-limit fault windows (RLIMIT_NOFILE=0 / RLIMIT_FSIZE) during the client phase, so that writes really fail",
     "C08-3": "gen: empty batches / empty transactions (size 0) in generated programs",
+    "C11-4": "C11: 'composite' key profile (shared head, varying field in the middle, shared tail); same shape added to the engine-level key generator",
+    "C18-4": "C18 (sequential part) and drive.Runner: key/value buffers handed to Put/Delete are overwritten as soon as the call has returned",
+    "C20-4": "C20: concurrent sub-check (SaveManifest next to Config.Update toggling a field between valid and invalid); found and fixed D39 on the way",
+    "C02-5": "drive: a crash round that closes cleanly is also observed by the writing process itself right before the close",
     "C13-4": "C13: real Replica state machine with injected transient apply failures (error state -> recovery -> new stream)",
     "C15-4": "C15: primary with a pre-history (older log files in the directory) so that the ack path's retention pass has work to do",
 }
